@@ -53,6 +53,14 @@ def comb_exact(name):
     if name.startswith("negwsum:"):
         w = [Fr(t) for t in name.split(":")[1].split()]
         return lambda p: -sum(a * b for a, b in zip(w, p))
+    if name.startswith("negminsum:"):      # flat above the truncation point: -sum(min(p_i, tau))
+        tau = Fr(name.split(":")[1])
+        return lambda p: -sum(min(t, tau) for t in p)
+    if name.startswith("countbelow:"):     # number of partial p-values at or below the threshold (a step function)
+        tau = Fr(name.split(":")[1])
+        return lambda p: Fr(sum(1 for t in p if t <= tau))
+    if name == "negposw":      # position-dependent weights 1, 1/2, 1/3, ...: not symmetric in its arguments
+        return lambda p: -sum(t / (i + 1) for i, t in enumerate(p))
     raise KeyError(name)
 
 
@@ -65,7 +73,7 @@ def npc_exact(pvalues, distr, name, plus1):
     pv = [Fr(t) for t in pvalues]
     obs = f(pv)
     ge = sum(1 for r in P if f(r) >= obs)
-    amb = sum(1 for r in P if f(r) == obs and r != pv) if (name in ("fisher", "negsum") or name.startswith("negwsum")) else 0
+    amb = sum(1 for r in P if f(r) == obs and r != pv) if (name in ("fisher", "negsum", "negposw") or name.startswith(("negwsum", "negminsum"))) else 0
     return ge, amb
 
 
